@@ -19,7 +19,11 @@ use std::time::{Duration, Instant};
 use vcore::*;
 use wow_mpq::{ArchiveBuilder, AttributesOption, FormatVersion, ListfileOption};
 
-const HANG_SECS: u64 = 4;
+/// a history that has not finished after this many seconds "does not return" (unbounded loop);
+/// a self-deadlock is recognised much earlier: the child is single-threaded, so once its only
+/// thread sits in futex(2) nobody can wake it
+const HANG_SECS: u64 = 30;
+const FUTEX_SAMPLES: u32 = 3;
 const FRONTIER_DIR: &str = "/verif/.scratch/c19-frontier";
 
 fn find_act(alpha: &[Act], a: &Act) -> u16 {
@@ -81,6 +85,7 @@ fn build_fixtures(s: &Scratch) -> Fx {
 struct ChildOut {
     result: Option<Value>,
     hung: bool,
+    deadlock: bool,
     signal: Option<i32>,
     exit: Option<i32>,
     last_mark: Option<(String, String)>,
@@ -161,13 +166,15 @@ fn run_in_child(fx: &Fx, alpha: &[Act], hist: &[u16], judge_from: usize) -> Chil
     let deadline = Instant::now() + Duration::from_secs(HANG_SECS);
     let mut buf: Vec<u8> = vec![];
     let mut hung = false;
+    let mut deadlock = false;
+    let mut futex_seen = 0u32;
     loop {
         let now = Instant::now();
         if now >= deadline {
             hung = true;
             break;
         }
-        let ms = (deadline - now).as_millis().min(200) as i32;
+        let ms = (deadline - now).as_millis().min(150) as i32;
         let mut p = libc::pollfd { fd: fds[0], events: libc::POLLIN, revents: 0 };
         let rc = unsafe { libc::poll(&mut p, 1, ms) };
         if rc > 0 {
@@ -181,6 +188,19 @@ fn run_in_child(fx: &Fx, alpha: &[Act], hist: &[u16], judge_from: usize) -> Chil
             } else if std::io::Error::last_os_error().kind() != std::io::ErrorKind::Interrupted {
                 break;
             }
+        } else if rc == 0 {
+            // nothing for 150 ms: is the only thread of the child blocked on a futex?
+            let sc = std::fs::read_to_string(format!("/proc/{pid}/syscall")).unwrap_or_default();
+            if sc.starts_with("202 ") {
+                futex_seen += 1;
+                if futex_seen >= FUTEX_SAMPLES {
+                    hung = true;
+                    deadlock = true;
+                    break;
+                }
+            } else {
+                futex_seen = 0;
+            }
         }
     }
     if hung {
@@ -189,7 +209,7 @@ fn run_in_child(fx: &Fx, alpha: &[Act], hist: &[u16], judge_from: usize) -> Chil
     let mut status = 0i32;
     unsafe { libc::waitpid(pid, &mut status, 0) };
     unsafe { libc::close(fds[0]) };
-    let mut out = ChildOut { result: None, hung, signal: None, exit: None, last_mark: None, panic: None };
+    let mut out = ChildOut { result: None, hung, deadlock, signal: None, exit: None, last_mark: None, panic: None };
     if libc::WIFSIGNALED(status) {
         out.signal = Some(libc::WTERMSIG(status));
     } else if libc::WIFEXITED(status) {
@@ -230,8 +250,8 @@ struct Level {
     init_mode: bool,
 }
 impl Level {
-    fn load(arg: &str, tier: Tier, init_mode: bool) -> Level {
-        let alpha = alphabet(tier == Tier::Thorough);
+    fn load(arg: &str, _tier: Tier, init_mode: bool) -> Level {
+        let alpha = alphabet(true);
         let inits = initial_states(&alpha);
         let scratch = Scratch::new("c19");
         let fx = build_fixtures(&scratch);
@@ -274,7 +294,7 @@ impl Space for Level {
         *self.starts.last().unwrap()
     }
     fn case_timeout(&self) -> u64 {
-        HANG_SECS * 3 + 20
+        HANG_SECS * 2 + 30
     }
     fn describe(&self, i: u64) -> Value {
         let (s, h) = self.decode(i);
@@ -319,7 +339,8 @@ impl Space for Level {
             }
             None if o.hung => {
                 r.outcome = "hang".into();
-                r.viol(format!("{} does not return (no result within the hang timeout: deadlock or unbounded loop)", at(&o)), format!("history={:?} timeout={}s", self.labels(&h), HANG_SECS));
+                let how = if o.deadlock { "self-deadlock: its only thread blocks on a lock for good" } else { "no result within the time limit" };
+                r.viol(format!("{} does not return ({how})", at(&o)), format!("history={:?} limit={}s", self.labels(&h), HANG_SECS));
             }
             None => {
                 r.outcome = "crash".into();
@@ -351,8 +372,8 @@ fn build(name: &str, arg: &str, tier: Tier) -> Box<dyn Space> {
 
 /// `c19 --history <tier> <initial index> <id-or-label;id-or-label;...>` : run one history and print every call
 fn repro(args: &[String]) {
-    let tier = if args[0] == "thorough" { Tier::Thorough } else { Tier::Quick };
-    let alpha = alphabet(tier == Tier::Thorough);
+    let _tier = &args[0]; // both tiers use the same alphabet
+    let alpha = alphabet(true);
     let inits = initial_states(&alpha);
     let scratch = Scratch::new("c19r");
     let fx = build_fixtures(&scratch);
@@ -376,7 +397,7 @@ fn repro(args: &[String]) {
                 println!("VIOLATION {} :: {}", x[0], x[1]);
             }
         }
-        None => println!("no result: hung={} signal={:?} exit={:?} last={:?} panic={:?}", o.hung, o.signal, o.exit, o.last_mark, o.panic),
+        None => println!("no result: hung={} deadlock={} signal={:?} exit={:?} last={:?} panic={:?}", o.hung, o.deadlock, o.signal, o.exit, o.last_mark, o.panic),
     }
 }
 
@@ -409,14 +430,14 @@ fn main() {
         return;
     }
     if args.iter().any(|a| a == "--actions") {
-        for (i, a) in alphabet(args.iter().any(|a| a == "thorough")).iter().enumerate() {
+        for (i, a) in alphabet(true).iter().enumerate() {
             println!("{i}\t{}", a.label());
         }
         return;
     }
     let Mode::Supervisor(mut c) = start("C19", "model_checking", build) else { return };
     let tier = c.tier;
-    let alpha = alphabet(tier == Tier::Thorough);
+    let alpha = alphabet(true);
     let inits = initial_states(&alpha);
     let max_depth: usize = std::env::var("C19_DEPTH").ok().and_then(|s| s.parse().ok()).unwrap_or(tier.pick(3, 4));
     let _ = std::fs::create_dir_all(FRONTIER_DIR);
